@@ -18,15 +18,24 @@ ASSUME = [
 ]
 
 
+RECOMPUTE_BIN = [None]
+# monitors-only probes: the model comparison is not meaningful (tamperfull: the pinned x/mod reader
+# accepts a tile the model's verifying reader refuses; storm: the schedule of concurrent submitters
+# is not recorded), only the property monitors count. Value = histories per job.
+PROBES = {"tamperfull": 2, "storm": 6}
+
+
 def run_harness(hexe, seed, n, scenario, out):
     args = [hexe, "-seed=%d" % seed, "-n=%d" % n, "-out=" + out]
+    if RECOMPUTE_BIN[0]:
+        args.append("-recompute-bin=" + RECOMPUTE_BIN[0])
     if scenario and scenario.startswith("crashenum:"):
         args += ["-scenario=crashenum", "-enumbase=" + scenario.split(":")[1]]
         args[2] = "-n=30"
     elif scenario:
         args.append("-scenario=" + scenario)
-        if scenario == "tamperfull":
-            args[2] = "-n=2"
+        if scenario in PROBES:
+            args[2] = "-n=%d" % PROBES[scenario]
     rc, log, dt = L.run(args, timeout=900)
     return rc, log
 
@@ -40,6 +49,13 @@ def main(prop, prop_v, tier, seed, replay, scenarios, own_prefixes, known_prefix
     if hexe is None:
         p = L.write_replay(prop, "harness_build.txt", "the correspondence harness no longer compiles against /repo's working tree\n" + hlog[-6000:])
         res.violation(p, "harness build failed", no_input=True)
+    if scenarios and "recompute" in scenarios:
+        # the real cmd/recompute-cache binary, built from /repo's working tree
+        rexe, rlog = L.build_repo_binary("./cmd/recompute-cache", "recompute-cache")
+        if rexe is None:
+            p = L.write_replay(prop, "recompute_build.txt", "cmd/recompute-cache no longer builds\n" + rlog[-6000:])
+            res.violation(p, "cmd/recompute-cache build failed", no_input=True)
+        RECOMPUTE_BIN[0] = rexe
     mexe, mlog = L.build_model("seq", "Extract/Seq.v", "seq.ml", extra_ml=["sha256.ml"])
     if mexe is None and ok:
         p = L.write_replay(prop, "model_build.txt", mlog[-6000:])
@@ -57,8 +73,8 @@ def main(prop, prop_v, tier, seed, replay, scenarios, own_prefixes, known_prefix
             k = 0
             for rep in range(3 if tier == "quick" else 12):
                 for sc in kinds:
-                    if sc == "tamperfull" and rep > 0 and tier == "quick":
-                        continue   # expensive probe (1000+ submissions per history): once per quick run
+                    if sc in PROBES and rep > 0 and tier == "quick":
+                        continue   # expensive probes (1000+ submissions per history): once per quick run
                     jobs.append((seed * 1000 + k, sc)); k += 1
             if tier == "thorough" and prop in ("C01", "C02", "C03", "C04"):
                 # systematic crash placement: every crash position of a round x every crash position
@@ -82,10 +98,9 @@ def main(prop, prop_v, tier, seed, replay, scenarios, own_prefixes, known_prefix
                 res.violation(p, "correspondence harness did not run to completion", no_input=True)
                 continue
             st, diffs, mons, hi, err = S.compare(text, mexe)
-            if job[1] and job[1].startswith("tamperfull") and diffs:
-                # monitors-only probe: the pinned x/mod reader accepts a tile the model's verifying
-                # reader refuses (known finding C12); only the fork monitors are meaningful here
-                stats_total["probe:tamperfull-model-differs"] = stats_total.get("probe:tamperfull-model-differs", 0) + len(diffs)
+            if job[1] in PROBES and diffs:
+                # monitors-only probe (see PROBES): only the property monitors are meaningful here
+                stats_total["probe:%s-model-differs" % job[1]] = stats_total.get("probe:%s-model-differs" % job[1], 0) + len(diffs)
                 diffs = []
             for k, v in st.items():
                 stats_total[k] = stats_total.get(k, 0) + v
